@@ -193,10 +193,15 @@ def rot_ensures(ex, pre, st, self_, k, result):
 
 
 def rot_result(ex, st, self_, k):
-    st = st.fork()
+    """two outcomes, as in the code: a rotation by a multiple of the length hands back the record itself (the same
+    object: whatever the caller then does to it, it does to the original); any other rotation builds a new record"""
+    n = tm.slen(text(ex, st, self_))
+    i = tm.pymod(k, n)
+    same = st.assume(tm.eq(i, 0))
+    st = st.assume(tm.ne(i, 0)).fork()
     keys = tuple(ann_items(st, self_).keys())
     r = ex.models.sym_record(st, "CircularRecord", "rot!%d" % next(tm._fresh), ann_keys=keys)
-    return [(st, r)]
+    return [(same, self_), (st, r)]
 
 
 class Init(Contract):
